@@ -179,9 +179,21 @@ impl World {
         let inst = self.inst(i);
         inst.enter();
         let mgr = inst.mgr();
-        block_on(mgr.ca_init(api::admin::CertAuthInit { handle: handle(ca) }))
-            .map_err(err_string)?;
-        Ok(())
+        match block_on(
+            mgr.ca_init(api::admin::CertAuthInit { handle: handle(ca) })
+        ) {
+            Ok(()) => Ok(()),
+            Err(err) => {
+                let text = err_string(err);
+                if text.starts_with("ca-duplicate") {
+                    // Re-submission after an interruption: carry on.
+                    Ok(())
+                }
+                else {
+                    Err(text)
+                }
+            }
+        }
     }
 
     /// Registers the CA as a publisher at the repository of instance `r` and
@@ -189,12 +201,26 @@ impl World {
     pub fn setup_repo(&self, i: usize, ca: &str, r: usize) -> OpResult {
         let inst = self.inst(i);
         inst.enter();
+        if block_on(inst.mgr().ca_repo_details(handle(ca))).is_ok() {
+            // Already configured (re-submission after an interruption).
+            return Ok(())
+        }
         let req = block_on(inst.mgr().ca_publisher_req(handle(ca)))
             .map_err(err_string)?;
         let repo = self.inst(r);
         repo.enter();
-        let response = block_on(repo.mgr().add_publisher(req, ADMIN))
-            .map_err(err_string)?;
+        let publisher = req.publisher_handle().clone();
+        let response = match block_on(repo.mgr().add_publisher(req, ADMIN)) {
+            Ok(response) => response,
+            Err(err) => {
+                let text = err_string(err);
+                if !text.starts_with("pub-duplicate") {
+                    return Err(text)
+                }
+                block_on(repo.mgr().repository_response(publisher))
+                    .map_err(err_string)?
+            }
+        };
         inst.enter();
         let contact = api::admin::RepositoryContact::try_from_response(
             response
@@ -209,7 +235,7 @@ impl World {
     pub fn add_child(
         &self, pi: usize, parent: &str, ci: usize, child: &str,
         child_name_at_parent: &str, parent_name_at_child: &str,
-        res: &ResourceSet,
+        res: &ResourceSet, resume: bool,
     ) -> OpResult {
         let cinst = self.inst(ci);
         cinst.enter();
@@ -223,12 +249,25 @@ impl World {
         };
         let pinst = self.inst(pi);
         pinst.enter();
+        let child_handle = req.handle.clone();
         let response = if parent == "ta" {
             block_on(pinst.mgr().ta_proxy_children_add(req, ADMIN))
         }
         else {
             block_on(pinst.mgr().ca_add_child(handle(parent), req, ADMIN))
-        }.map_err(err_string)?;
+        };
+        let response = match response {
+            Ok(response) => response,
+            Err(err) => {
+                let text = err_string(err);
+                if !text.starts_with("ca-child-duplicate") || !resume {
+                    return Err(text)
+                }
+                block_on(pinst.mgr().ca_parent_response(
+                    handle(parent), child_handle
+                )).map_err(err_string)?
+            }
+        };
         cinst.enter();
         let parent_req = api::admin::ParentCaReq {
             handle: ParentHandle::from_str(parent_name_at_child).unwrap(),
